@@ -43,7 +43,9 @@ func runC19(c *engine.Ctx) {
 	r4 := c.Rule("R4", "complete-full iff no missing-blocks entry (read before delete); missing entry created exactly when the block is absent", 1)
 	r5 := c.Rule("R5", "send decision = present AND past skip count (post-increment) AND reference count zero (pre-record)", 1)
 	r6 := c.Rule("R6", "tracker state only accessed under linkTrackerLk", 4)
-	r7 := c.Rule("R7", "a response retired without a final message releases its link tracking first, unconditionally", 2)
+	r7 := c.Rule("R7", "a response retired without a final message releases its link tracking first, unconditionally", 1)
+	r8 := c.Rule("R8", "extension wiring on the responder: the dedup key is applied before the ignore list and skip count are recorded (C03.R6)", 2)
+	c03Extensions(c, r8)
 	checkClearBeforeTerminate(c, r7)
 
 	ltType := c.P.NamedType("linktracker", "LinkTracker")
@@ -246,6 +248,28 @@ func runC19(c *engine.Ctx) {
 				}
 			}
 			c.Decide(r3, engine.FuncName(sel), sel.Pos(), okSel && n >= 2, "altTrackers[dedupKeys[request]] when the request has a key, the peer-wide tracker otherwise", "tracker selection does not follow the request's dedup key")
+			// the selection reads dedupKeys[request]: it must not run after that entry has been deleted, or the
+			// request is finished against the wrong (peer-wide) tracker
+			for _, f := range c.P.FuncsIn("responsemanager/responseassembler") {
+				dels := engine.MapDeletesOfField([]*ssa.Function{f}, dk)
+				if len(dels) == 0 {
+					continue
+				}
+				isSel := func(in ssa.Instruction) bool {
+					cc, ok := in.(*ssa.Call)
+					return ok && cc.Call.StaticCallee() == sel
+				}
+				for _, d := range dels {
+					late, at := engine.CanReach(d, isSel, nil)
+					where := ""
+					if at != nil {
+						where = " (at " + c.P.Pos(at.Pos()) + ")"
+					}
+					c.Decide(r3, engine.FuncName(f)+"|tracker-resolved-before-key-removed", d.Pos(), !late,
+						"the request's tracker is resolved before its dedup key is removed",
+						"the request's tracker is looked up after its dedup key has been deleted"+where+": a keyed request is then finished against the peer-wide tracker — its references in the keyed tracker are never released and a missing block goes unreported (complete instead of partial)")
+				}
+			}
 		}
 	}
 
